@@ -78,6 +78,13 @@ FIRST = {
  'C18f': ('missed', 'a grown mnemonic was accepted when it round-tripped; its Debug name must now be the IANA mnemonic of its number (registry embedded)'),
  'C19f': ('missed', 'map keys were short synthetic words; keys with a conventional meaning in several letter cases added'),
  'C20f': ('missed', 'nothing ran the real ServiceDiscovery under the real clock; socket expiry stage (raw announcement with TTL 1 / cache-flush, then gone) added'),
+ # round 7, realistic slips (first encounter measured against the checks of commit 8c510f7, seeded/_results/first_encounter_round7.txt)
+ 'C03g': ('missed by C03 (C04, C07 had it)', 'C03 compared the two vector-returning calls only; write_compressed_to into a cursor behind a 2- and a 300-byte prefix added'),
+ 'C05g': ('missed by C05 (C02 had it)', 'a rejected mis-sized record is allowed, so a zero-length record that derails the next entry went unnoticed; metamorphic oracle added: a message accepted when it ends in a record must be accepted when well-formed records follow'),
+ 'C10g': ('missed by C10 (C09 had it)', 'C10 left OPT to C09; the EDNS option lists (empty options in every position) now also run under C10'),
+ 'C12g': ('missed', 'hostile text had no = or quote characters; every string of length <= 4 over {a, =, quote, ;, backslash} and the dictionary strings added at every string position'),
+ 'C15g': ('missed', 'the peer always started while the watcher was still announcing; late-joiner cases (peer starts 1.4 s later and learns from the reply to its own query) added for all three mode pairs'),
+ 'C18g': ('missed', 'opaque records were only built under codes without a type; RData::NULL(code, ..) for every code 0..=65535 must report and match the type the code denotes'),
  'C20d': ('missed', 'at most a handful of records per name; stores of 1..500 records in one bucket with the authoritative record first / middle / last added'),
 }
 def load_jsonl(pattern):
